@@ -2,10 +2,10 @@ package drive
 
 import (
 	"bytes"
-	"math/rand"
 	"encoding/json"
 	"errors"
 	"fmt"
+	"math/rand"
 	"strings"
 
 	"github.com/ulikunitz/xz/lzma"
@@ -48,6 +48,8 @@ func payload(tok string, seed int64, idx int, g W2Cfg) []byte {
 		return MakeData("random", 70000, s)
 	case "W70Kt":
 		return MakeData("text", 70000, s)
+	case "W140Kn":
+		return MakeData("nearrandom", 140000, s)
 	case "W300Kr":
 		return MakeData("random", 300000, s)
 	case "W2M":
@@ -100,24 +102,24 @@ type chunkJ struct {
 }
 
 type callRec struct {
-	Ev     string   `json:"ev"`
-	N      int      `json:"n"`
-	Ret    int      `json:"ret"`
-	Err    string   `json:"err"`
-	Delta  int      `json:"delta"`
-	Chunks []chunkJ `json:"chunks"`
+	Ev      string   `json:"ev"`
+	N       int      `json:"n"`
+	Ret     int      `json:"ret"`
+	Err     string   `json:"err"`
+	Delta   int      `json:"delta"`
+	Chunks  []chunkJ `json:"chunks"`
 	sinkLen int
 	errText string
 }
 
 // W2Result is what runW2 learned.
 type W2Result struct {
-	Calls    []callRec
-	Sink     []byte
-	Written  []byte
-	Chunks   []ref.ChunkEv
-	NonTriv  bool
-	NChunks  int
+	Calls   []callRec
+	Sink    []byte
+	Written []byte
+	Chunks  []ref.ChunkEv
+	NonTriv bool
+	NChunks int
 }
 
 // runW2 replays one call history on the real Writer2, judges every clause of
